@@ -82,6 +82,54 @@ pub fn run_fronts(kvs: &[Kv], geoms: &[Geom]) -> Result<u64, String> {
     Ok(n)
 }
 
+/// Bulk-load size ladder: N generated keys with recurring tails, built through every BULK entry point (iterators
+/// with exact size hints, streams) and compared with single inserts.
+pub fn bulk_kvs(n: usize, set: bool) -> Vec<Kv> {
+    // key i = base-36 of i (6 digits, increasing) + one of S = max(n/6, 3)
+    // four-byte tails chosen pseudo-randomly: the tails recur in no particular
+    // order, so whether a tail's nodes are still cached when it recurs - and
+    // hence the bytes - depends on the cache geometry once S exceeds it
+    let b36 = |mut x: u64, w: usize, out: &mut Vec<u8>| {
+        let at = out.len();
+        out.resize(at + w, b'0');
+        for j in (0..w).rev() {
+            let d = (x % 36) as u8;
+            out[at + j] = if d < 10 { b'0' + d } else { b'a' + d - 10 };
+            x /= 36;
+        }
+    };
+    let s = (n as u64 / 6).max(3);
+    (0..n as u64)
+        .map(|i| {
+            let mut k = vec![];
+            b36(i, 6, &mut k);
+            k.push(b'/');
+            b36(mix64(mix64(i) % s) % (36 * 36 * 36 * 36), 4, &mut k);
+            (k, if set { 0 } else { i % 1000 })
+        })
+        .collect()
+}
+
+pub fn run_bulk(n: usize, set: bool) -> Result<u64, String> {
+    let kvs = bulk_kvs(n, set);
+    let reference = front::build(Front::RawInsert, DEFAULT_GEOM, &kvs)?;
+    let mut cnt = 1;
+    for fr in ALL_FRONTS {
+        if (fr.set_only() && !set) || matches!(fr, Front::RawInsert | Front::RawAdd | Front::SetInsert | Front::MapInsert) {
+            continue;
+        }
+        if n > 200_000 && matches!(fr, Front::SetExtendStreamUnion | Front::MapExtendStreamUnion | Front::RawExtendStreamFst) {
+            continue;
+        }
+        let b = front::build(fr, DEFAULT_GEOM, &kvs)?;
+        cnt += 1;
+        if b != reference {
+            return Err(format!("{:?} over {} items produced different bytes than {} single inserts (lengths {} vs {})", fr, n, n, b.len(), reference.len()));
+        }
+    }
+    Ok(cnt)
+}
+
 // ---- call-level interleavings --------------------------------------------
 
 #[derive(Clone, Debug)]
@@ -375,6 +423,7 @@ pub fn replay(case: &Value) -> Result<String, String> {
             let kvs = mixed_family(total).swap_remove(i).1;
             run_fronts(&kvs, &[(3, 3)]).map(|n| format!("{} builds byte-identical", n))
         }
+        "bulk" => run_bulk(case["n"].as_u64().unwrap() as usize, case["set"].as_bool().unwrap()).map(|n| format!("{} builds byte-identical", n)),
         "fronts-corpus" => {
             let kvs = corpus_sample(case["name"].as_str().unwrap(), case["take"].as_u64().unwrap() as usize, case["set"].as_bool().unwrap())?;
             run_fronts(&kvs, &[]).map(|n| format!("{} builds byte-identical", n))
@@ -452,7 +501,7 @@ pub fn plan(tier: Tier) -> Plan {
     let mut p = Plan::new("C15", "model_checking");
     let thorough = tier.thorough();
     let scan = shared_state_scan();
-    p.rule = "(1) for every accepted sequence of the scope (subsets of U_ab3 with <= 4 keys quick / all thorough, x value patterns; fan-out families) the bytes through all 17 front ends, Builder::memory, a BufWriter, a 3-bytes-per-call sink and Map::from_iter are identical, and the raw front ends agree under the tiny cache geometries 1x1, 2x2, 3x3 (where evictions make the bytes depend on cache behaviour), also when repeated; the same for samples of the shipped corpora (400..10000 keys), where the DEFAULT cache is under pressure; the same for a long-tail family (10..64 keys of 66..502 bytes sharing long tails); (2) EVERY call-level interleaving (multiset permutations of the API calls new/insert.../finish) of every ordered pair (thorough: also triples of shorter jobs) of 6 builder jobs of different kinds and geometries driven from one thread: each builder must produce the bytes of its solo run (each pair runs on a fresh thread; pairs of jobs with wide nodes included); (3) the whole-scope digest computed twice on one thread, on 8 free-running OS threads and in 4 child processes (std RandomState differs per process) must be equal - a repetition over an uncontrolled seed, reported as such. non-trivial = interleavings with at least one context switch".into();
+    p.rule = "(1) for every accepted sequence of the scope (subsets of U_ab3 with <= 4 keys quick / all thorough, x value patterns; fan-out families) the bytes through all 17 front ends, Builder::memory, a BufWriter, a 3-bytes-per-call sink and Map::from_iter are identical, and the raw front ends agree under the tiny cache geometries 1x1, 2x2, 3x3 (where evictions make the bytes depend on cache behaviour), also when repeated; the same for samples of the shipped corpora (400..10000 keys), where the DEFAULT cache is under pressure; the same for a long-tail family (10..64 keys of 66..502 bytes sharing long tails); (1b) bulk-load size ladder: 1 .. 400004 (thorough 3.3 million) generated items through every bulk entry point (iterators with exact size hints, streams, from_iter) against single inserts; (2) EVERY call-level interleaving (multiset permutations of the API calls new/insert.../finish) of every ordered pair (thorough: also triples of shorter jobs) of 6 builder jobs of different kinds and geometries driven from one thread: each builder must produce the bytes of its solo run (each pair runs on a fresh thread; pairs of jobs with wide nodes included); (3) the whole-scope digest computed twice on one thread, on 8 free-running OS threads and in 4 child processes (std RandomState differs per process) must be equal - a repetition over an uncontrolled seed, reported as such. non-trivial = interleavings with at least one context switch".into();
     p.assumptions = vec![
         format!("the library has no synchronisation operation and no shared mutable state, so thread interleavings are one Mazurkiewicz trace and a controlled scheduler (loom/shuttle) would have no scheduling point to branch on; scan of /repo/src for static mut/thread_local/lazy_static/OnceCell/OnceLock/Atomic/Mutex/RwLock/RandomState/DefaultHasher/unsafe outside hook items found: {}", if scan.is_empty() { "nothing".to_string() } else { scan.join("; ") }),
         "call-level interleavings of builders on one thread expose any instance-crossing (global or thread-local) state".into(),
@@ -521,6 +570,28 @@ pub fn plan(tier: Tier) -> Plan {
             st.nontrivial += 1;
             do_fronts_case(&kvs, &[], json!({"kind": "fronts-corpus", "name": name, "take": take, "set": set}), st, rep);
         }));
+    }
+    // bulk-load size ladder (size hints of iterators; neither small nor round counts)
+    {
+        let mut ns: Vec<usize> = vec![1, 7, 100, 1_000, 1_800, 2_499, 2_500, 4_097, 10_001, 33_000, 65_537, 100_001, 320_031, 320_032, 400_004];
+        if thorough {
+            ns.extend([1_000_000, 1_048_577, 3_300_000]);
+        }
+        for n in ns {
+            for set in [false, true] {
+                if set && n > 100_001 && n != 400_004 {
+                    continue;
+                }
+                p.units.push(unit("bulk-load-size-ladder-(finite-family)", format!("bulk {} set={}", n, set), move |st, rep| {
+                    st.states += 1;
+                    st.nontrivial += 1;
+                    match run_bulk(n, set) {
+                        Ok(c) => { st.evals += c; st.transitions += c * n as u64; st.count("bulk_builds_compared", c); }
+                        Err(msg) => rep.violation(format!("bulk {} set={}", n, set), msg, json!({"kind": "bulk", "n": n, "set": set})),
+                    }
+                }));
+            }
+        }
     }
     // interleavings
     let jobs = jobs_list();
